@@ -551,7 +551,8 @@ class Body:
             res = ('param', self.local_name(l))
         elif len(whole) == 1 and not partial:
             res = self._def_term(whole[0], stack + (l,))
-            if self.locals[l].get('name') and self.locals[l].get('user') and res is not None and res[0] not in ('param', 'const', 'let'):
+            if self.locals[l].get('name') and self.locals[l].get('user') and res is not None and res[0] not in ('param', 'const') \
+                    and not (res[0] == 'let' and (res[1] == self.locals[l]['name'] or res[1] not in ('val', 'result', 'residual', '__awaitee', 'iter'))):
                 res = ('let', self.locals[l]['name'], res)
         elif len(whole) == 0 and partial:
             # aggregate built field by field
